@@ -2,26 +2,69 @@ package hackpadfs
 
 import "strings"
 
+// stripErrPathPrefix translates the paths of an error returned by a mounted file system back into the caller's namespace.
+// The caller's 'name' is known to the mounted file system as 'mountSubPath'.
 func stripErrPathPrefix(err error, name, mountSubPath string) error {
 	if err == nil {
 		return err
 	}
-	prefix := strings.TrimSuffix(mountSubPath, name)
+	fixPath := mountPathTranslator(name, mountSubPath)
 	switch err := err.(type) {
 	case *PathError:
 		return &PathError{
 			Op:   err.Op,
-			Path: strings.TrimPrefix(err.Path, prefix),
+			Path: fixPath(err.Path),
 			Err:  err.Err,
 		}
 	case *LinkError:
 		return &LinkError{
 			Op:  err.Op,
-			Old: strings.TrimPrefix(err.Old, prefix),
-			New: strings.TrimPrefix(err.New, prefix),
+			Old: fixPath(err.Old),
+			New: fixPath(err.New),
 			Err: err.Err,
 		}
 	default:
 		return err
+	}
+}
+
+// mountPathTranslator returns a func converting a mounted file system's paths to the caller's paths.
+func mountPathTranslator(name, mountSubPath string) func(string) string {
+	const root = "."
+	trimBase := func(base string) func(string) string {
+		// the mount's paths are below 'base', like a Sub file system
+		return func(p string) string {
+			switch {
+			case p == base:
+				return root
+			case strings.HasPrefix(p, base+"/"):
+				return strings.TrimPrefix(p, base+"/")
+			default:
+				return p
+			}
+		}
+	}
+	addMountPoint := func(mountPoint string) func(string) string {
+		// the mount's paths are relative to 'mountPoint', like a MountFS
+		return func(p string) string {
+			if p == root {
+				return mountPoint
+			}
+			return mountPoint + "/" + p
+		}
+	}
+	switch {
+	case name == mountSubPath:
+		return func(p string) string { return p }
+	case name == root:
+		return trimBase(mountSubPath)
+	case strings.HasSuffix(mountSubPath, "/"+name):
+		return trimBase(strings.TrimSuffix(mountSubPath, "/"+name))
+	case mountSubPath == root:
+		return addMountPoint(name)
+	case strings.HasSuffix(name, "/"+mountSubPath):
+		return addMountPoint(strings.TrimSuffix(name, "/"+mountSubPath))
+	default:
+		return func(p string) string { return p }
 	}
 }
